@@ -28,13 +28,14 @@ ASSUMPTIONS = ["'conflict' = two link definitions producing the same (section, o
                "for everything loaded before it)"]
 CASE_TIMEOUT = 120
 WALL = {"quick": 900, "thorough": 7200}
-REQUIRED = {"history_same_paths_other_content": 50, "relabel_runs": 500, "permute_runs": 200, "history_runs": 200, "repeat_runs": 200, "file_order_runs": 30,
+REQUIRED = {"process_runs": 40, "cases_with_type_replacing_links": 80, "history_same_paths_other_content": 50, "relabel_runs": 500, "permute_runs": 200, "history_runs": 200, "repeat_runs": 200, "file_order_runs": 30,
             "mixed_nrexcl_cases": 50, "fragment_cases": 20, "file_order_runs_unrestricted": 40, "termini_relabel_runs": 100, "termini_modified": 100}
 
 
 def plan(tier, seed):
     n = 900 if tier == "quick" else 20000
-    return [["meta", i] for i in range(n)] + [["fileorder", i] for i in range(n // 6)] + [["termini", i] for i in range(n // 6)]
+    return [["meta", i] for i in range(n)] + [["fileorder", i] for i in range(n // 6)] + [["termini", i] for i in range(n // 6)] + \
+        [["processes", i] for i in range(max(12, n // 60))]
 
 
 def setup():
@@ -192,8 +193,53 @@ def run_termini(cid, rng, workdir, res):
     return res
 
 
+PROCESS_RUNS = [(["martini3"], ["PEO:3", "PS:2"]), (["martini3"], ["PEO:4"]), (["martini3", "martini2"], ["PEO:3"]),
+                (["martini2", "martini3"], ["PS:3"]), (["2016H66"], ["PEO:3", "PS:2"]), (["martini3"], ["ALA:2", "GLY:2", "LYS:1"]),
+                (["parmbsc1"], ["DA5:1", "DC:2", "DG3:1"]), (["oplsaaLigParGen"], ["PEO:4"]), (["gromos53A6"], ["P3HT:3"])]
+
+
+def run_processes(cid, rng, workdir, res):
+    """the same command in fresh interpreters (every process has its own string-hash seed, as on a user's machine):
+    the files must be identical apart from the first line"""
+    import subprocess
+    import sys
+    from ..core import REPO
+    libs, seq = PROCESS_RUNS[cid[1] % len(PROCESS_RUNS)]
+    args = ["gen_params", "-lib"] + libs + ["-seq"] + seq + ["-name", "P", "-o", "out.itp"]
+    outs = []
+    for k, hs in enumerate(rng.sample(range(1, 1000), 4)):
+        d = os.path.join(workdir, "p%d" % k)
+        os.makedirs(d, exist_ok=True)
+        env = dict(os.environ, PYTHONPATH=REPO, TQDM_DISABLE="1", PYTHONHASHSEED=str(hs))
+        p = subprocess.run([sys.executable, os.path.join(REPO, "bin", "polyply")] + args, cwd=d, env=env,
+                           stdout=subprocess.DEVNULL, stderr=subprocess.PIPE, timeout=110)
+        if p.returncode != 0 or not os.path.exists(os.path.join(d, "out.itp")):
+            res["status"] = "rejected"
+            note(res, "rejections", "processes: %s" % p.stderr.decode()[-120:])
+            return res
+        outs.append((hs, open(os.path.join(d, "out.itp"), "rb").read().split(b"\n", 1)[1]))
+    res["sig"] = sig_of(args)
+    res["sample"] = {"command": args, "hash_seeds": [h for h, _ in outs]}
+    res["nontrivial"] = True
+    bump(res, "process_runs", len(outs))
+    ref_hs, ref = outs[0]
+    for hs, body in outs[1:]:
+        if body != ref:
+            a, b = ref.split(b"\n"), body.split(b"\n")
+            k = next((i for i in range(min(len(a), len(b))) if a[i] != b[i]), min(len(a), len(b)))
+            where = "header-comment" if (k < len(a) and a[k].startswith(b";")) else "body"
+            violation(res, "repeat-not-identical:separate-processes:%s" % where,
+                      "the same command run in two interpreters (string-hash seeds %d and %d) writes different files: line %d is "
+                      "%r / %r" % (ref_hs, hs, k + 2, a[k][:90] if k < len(a) else None, b[k][:90] if k < len(b) else None),
+                      {"command": args, "hash_seeds": [ref_hs, hs]})
+            break
+    return res
+
+
 def run_case(cid, rng, workdir):
     res = new_result()
+    if cid[0] == "processes":
+        return run_processes(cid, rng, workdir, res)
     if cid[0] == "fileorder":
         return run_fileorder(cid, rng, workdir, res)
     if cid[0] == "termini":
@@ -201,6 +247,11 @@ def run_case(cid, rng, workdir):
     neutral = rng.random() < 0.35
     kw = dict(nmin=2, nmax=7, max_links=4, link_opts={"p_remove": 0.05, "p_replace": 0.15, "p_edge": 0.15,
                                                       "linktypes": True, "p_nonedge": 0.0})
+    if rng.random() < 0.2:
+        # one link replaces an atom type, another selects atoms by type: which of the two is defined first must not matter
+        kw["link_opts"] = dict(kw["link_opts"], p_pattern=0.0, replace_atype=True, p_attr=0.6, p_replace=0.6)
+        kw["max_links"] = 5
+        bump(res, "cases_with_type_replacing_links")
     if neutral:
         case = paramcase.build(rng, profile="sensible", layouts=["ff+itp", "itp+ff"], **kw)
         for l in case["ff_links"]:
